@@ -7,6 +7,7 @@ import (
 	"sort"
 
 	pipeline "github.com/buildkite/go-pipeline"
+	"github.com/buildkite/go-pipeline/ordered"
 	"github.com/buildkite/go-pipeline/signature"
 	"verifharness/sx"
 )
@@ -202,6 +203,36 @@ func init() {
 					break
 				}
 				stat("C01", "mut-resigned-without-mandatory-field")
+			}
+			// a key removed from an ordered map inside signed content (a plugin config built through the API, the
+			// nested mappings parsing leaves under unknown matrix keys) is a semantic change, whatever the removal left
+			// behind in the map's storage
+			{
+				probe := func(remove bool) *ordered.MapSA {
+					m := ordered.NewMap[string, any](0)
+					m.Set("image", "alpine")
+					m.Set("debug", true)
+					m.Set("always-pull", true)
+					m.Set("user", "nobody")
+					if remove {
+						m.Delete("debug")
+					}
+					return m
+				}
+				withProbe := func(remove bool) *pipeline.CommandStep {
+					a := *cs
+					a.Plugins = append(append(pipeline.Plugins{}, cs.Plugins...), &pipeline.Plugin{Source: "probe#v1", Config: probe(remove)})
+					return &a
+				}
+				if sgA, _, err := signPayload(key, withProbe(false), base.repo, base.penv); err == nil {
+					if verr := verifyStep(key, sgA, withProbe(false), base.repo, base.penv); verr != nil {
+						oracleFail("C01", "verdict-unchanged", sx.A(text), "a step with an ordered-map plugin config does not verify unchanged: "+verr.Error())
+					} else if verr := verifyStep(key, sgA, withProbe(true), base.repo, base.penv); verr == nil {
+						oracleFail("C01", "verdict-semantic-change", sx.A(text), "a key was deleted from an ordered map inside the signed plugin config, yet the signature still verifies")
+					} else {
+						stat("C01", "mut-ordered-map-key-deleted")
+					}
+				}
 			}
 			for _, m := range muts {
 				mcs, mtext, err := stepFromDoc(m.c.doc)
